@@ -30,7 +30,10 @@ LEVEL_TEXT = (
     "derivative'); for EVERY pair V/VT of transposes between model space and the computational "
     "cells (identity, anisotropy aliasing, volume averaging to any grid -- hence every gridding "
     "mode), Re sum conj(w) (J v) = <J^T w, v> for all real v and all data-shaped w; jtvec of the "
-    "weighted residual poses exactly the adjoint problem of the gradient.")
+    "weighted residual poses exactly the adjoint problem of the gradient; sums over source-frequency "
+    "pairs accumulate; the model's volume-average pair (forward v_apply after the chain factor on the "
+    "model grid in jvec, accumulating vt_add before the chain factor on the model grid in "
+    "gradient/jtvec) is a transpose pair for every entry list.")
 LEVEL_NOTE = (
     "Partial: exact linear solves are hypotheses (oracles in the correspondence; solver accuracy is "
     "C01), symmetry of K0 is C02, receiver rows C09. discretize's get_edge_inner_product_deriv and "
@@ -49,7 +52,41 @@ def gen_maps(ctx):
     mapsgen.generate(V.REPO, V.COQ)
 
 
-PREBUILD = [adjgen.prebuild, gen_maps]
+def order_anchor(ctx):
+    """Fail closed on a reordering of chain rule and volume averaging:
+    in Simulation.jvec every map.derivative_chain call acts on the user vector
+    with a property array of self.model and precedes maps.interpolate; in
+    Simulation.gradient _interp_volume_average_adj precedes every
+    derivative_chain call, which use self.model.property_*."""
+    import ast
+    src = open(os.path.join(V.REPO, 'emg3d', 'simulations.py')).read()
+    cls = next(n for n in ast.parse(src).body if isinstance(n, ast.ClassDef) and n.name == 'Simulation')
+    fns = {n.name: n for n in cls.body if isinstance(n, ast.FunctionDef)}
+
+    def calls(fn, attr):
+        return [c for c in ast.walk(fn) if isinstance(c, ast.Call)
+                and isinstance(c.func, ast.Attribute) and c.func.attr == attr]
+
+    def on_self_model(arg):
+        return (isinstance(arg, ast.Attribute) and arg.attr.startswith('property_')
+                and isinstance(arg.value, ast.Attribute) and arg.value.attr == 'model'
+                and isinstance(arg.value.value, ast.Name) and arg.value.value.id == 'self')
+    for name, first_attr, then_attr in (('jvec', 'derivative_chain', 'interpolate'),
+                                        ('gradient', '_interp_volume_average_adj', 'derivative_chain')):
+        fn = fns[name]
+        a, b_ = calls(fn, first_attr), calls(fn, then_attr)
+        if not a or not b_:
+            raise RuntimeError(f"Simulation.{name}: expected calls of {first_attr} and {then_attr}")
+        if max(c.lineno for c in a) >= min(c.lineno for c in b_):
+            raise RuntimeError(f"Simulation.{name}: {first_attr} no longer precedes {then_attr} "
+                               f"(chain rule / volume averaging reordered)")
+        for c in calls(fn, 'derivative_chain'):
+            if len(c.args) != 2 or not on_self_model(c.args[1]):
+                raise RuntimeError(f"Simulation.{name}: derivative_chain is not applied with a property "
+                                   f"array of self.model (line {c.lineno})")
+
+
+PREBUILD = [adjgen.prebuild, gen_maps, order_anchor]
 TRUSTED = [
     "recorder around emg3d._multiprocessing.solve (in-process): source fields and results of all solves",
     "chain factors of the log maps evaluated in floats from the expression trees of Gen/MapsMap.v",
@@ -281,16 +318,60 @@ def run_tcase(spec, seed, mode):
              f"{spec['aniso']} {nxm} {nym} {nzm} [{'; '.join(items)}] cx cy cz).")
     mirror = H.np_pipeline(spec['aniso'], (nxm, nym, nzm), pairs, chains)
     grids_differ = all(p[1].grid != mgrid for p in pairs)
+    # ---- jvec on a fresh simulation with the same computational grids:
+    # chain on the MODEL grid, THEN volume averaging (Coq jvec_source_T)
+    v = model_vec(npr, spec)
+    with H.Recorder() as recj, H.quiet():
+        simj = H.new_sim(spec, solver=H.LOOSE, gridding=mode, gridding_opts=gopts_)
+        vin = v.copy()
+        jv = np.array(simj.jvec(vin))
+    assert len(recj.calls) == 2 * nsf
+    fwdj, jcalls = recj.calls[:nsf], recj.calls[nsf:]
+    nc = H.NCOMP[spec['aniso']]
+    v4 = v.reshape((nc, nxm, nym, nzm))
+    L.append("Definition vv := [" + '; '.join(H.karr3(v4[c]) for c in range(nc)) + "].")
+    js_impl, js_mirror = [], []
+    for k in range(nsf):
+        e = fwdj[k][1][0]
+        cg = e.grid
+        nx, ny, nz = cg.shape_cells
+        L.append(f"Definition ej_{k} := {H.kfield3(e)}.")
+        L.append(f"Definition js_{k} := jvec_source_T {spec['aniso']} {nx} {ny} {nz} vol_{k} "
+                 f"{H.kq(complex(e.smu0))} ej_{k} T_{k} vv cx cy cz.")
+        L.append(f"Eval vm_compute in dump3 out_c {nx} {ny + 1} {nz + 1} (fst (fst js_{k})) ++ "
+                 f"dump3 out_c {nx + 1} {ny} {nz + 1} (snd (fst js_{k})) ++ "
+                 f"dump3 out_c {nx + 1} {ny + 1} {nz} (snd js_{k}).")
+        sf = jcalls[k][0]['sfield']
+        js_impl.append(np.r_[np.array(sf.fx).ravel(), np.array(sf.fy).ravel(), np.array(sf.fz).ravel()])
+        mm = H.np_jvec_source(spec['aniso'], e, complex(e.smu0), pairs[k][3], pairs[k][4], v4, chains)
+        js_mirror.append(np.r_[mm[0].ravel(), mm[1].ravel(), mm[2].ravel()])
     return '\n'.join(L) + '\n', dict(jt=jt, grad=g, mirror=mirror, shape=(nxm, nym, nzm),
-                                      nsf=nsf, mode=mode, grids_differ=grids_differ)
+                                      nsf=nsf, mode=mode, grids_differ=grids_differ,
+                                      js=js_impl, js_mirror=js_mirror,
+                                      untouched=bool(np.array_equal(vin, v)))
 
 
 def compare_tcase(spec, impl, out, dis):
     b = dict(H.brief(spec), gridding=impl['mode'], pairs=impl['nsf'])
     ans = V.eval_answers(out)
-    if len(ans) != 1:
+    if len(ans) != 1 + impl['nsf']:
         dis.append({'what': 'unexpected number of model answers', 'case': b, 'log': out[-800:]})
         return
+    for k in range(impl['nsf']):
+        mod = np.array(H.parse_c(ans[1 + k]))
+        iv = impl['js'][k]
+        scale = max(float(np.max(np.abs(iv))), float(np.max(np.abs(mod))) if len(mod) else 0.0, 1e-300)
+        if len(mod) != len(iv) or np.max(np.abs(mod - iv)) > 1e-9 * scale:
+            kk = int(np.argmax(np.abs(mod - iv))) if len(mod) == len(iv) else -1
+            dis.append({'what': 'jvec source field (computational grid /= model grid) differs from model '
+                                'jvec_source_T (chain factor on the MODEL grid, then volume averaging)',
+                        'case': b, 'srcfreq': k, 'index': kk, 'impl': str(iv[kk]), 'model': str(mod[kk])})
+            break
+        if np.max(np.abs(impl['js_mirror'][k] - mod)) > 1e-9 * scale:
+            dis.append({'what': 'harness: numpy mirror differs from Coq jvec_source_T', 'case': b})
+            break
+    if not impl['untouched']:
+        dis.append({'what': 'jvec modified the user-provided vector', 'case': b})
     nx, ny, nz = impl['shape']
     nc = H.NCOMP[spec['aniso']]
     gm = np.array(H.parse_c(ans[0])).reshape((nc, nx, ny, nz)).real
@@ -388,6 +469,26 @@ def auto_mode_case(spec, mode, seed, dis, hist):
         dis.append({'what': 'Simulation.jtvec (automatic gridding, several source-frequency pairs) '
                             'differs from the accumulated per-pair pipeline', 'case': b,
                     'entry': [int(x) for x in kk], 'impl': float(gi[kk]), 'model': float(mirror[kk])})
+    # jvec on a fresh simulation: recorded source of every jvec solve vs the mirror of jvec_source_T
+    v = model_vec(npr, spec)
+    with H.Recorder() as recj, H.quiet():
+        simj = H.new_sim(spec, solver=H.LOOSE, **kw)
+        _ = simj.jvec(v.copy())
+    fwdj, jcalls = recj.calls[:nsf], recj.calls[nsf:2 * nsf]
+    v4 = v.reshape((nc, *mgrid.shape_cells))
+    chains_ = chain_arrays(spec, simj.model)
+    for k in range(nsf):
+        e = fwdj[k][1][0]
+        mm = H.np_jvec_source(spec['aniso'], e, complex(e.smu0), pairs[k][3],
+                              H.vt_entries(mgrid, e.grid), v4, chains_)
+        sf = jcalls[k][0]['sfield']
+        d = max(np.max(np.abs(np.array(getattr(sf, 'f' + c_)) - mm[a])) for a, c_ in enumerate('xyz'))
+        sc = max(float(np.max(np.abs(sf.field))), 1e-300)
+        if d > 1e-8 * sc:
+            dis.append({'what': 'jvec source field (automatic gridding) differs from chain-on-model-grid, '
+                                'then volume averaging, then edge-mass derivative', 'case': b,
+                        'srcfreq': k, 'impl_minus_model_max': float(d), 'scale': sc})
+            break
     tmp = tempfile.mkdtemp(prefix='c08_')
     try:
         with H.quiet():
@@ -530,8 +631,10 @@ def history_dot_case(spec, mode, seed):
     m2 = np.isfinite(r['jv_f'])
     dev = float(np.max(np.abs(jv[m2] - r['jv_f'][m2])) / max(np.max(np.abs(r['jv_f'][m2])), 1e-300))
     if err > 1e-7 or dev > 1e-7:
-        return {'signature': 're-used simulation after model update: J^T not the adjoint of J / '
-                             'J v not that of the current model',
+        sig = ('re-used simulation after model update: J v is not that of the current model '
+               '(differs from a fresh simulation)' if dev > 1e-7 else
+               'dot-product test Re<w,Jv> != <J^T w,v> (re-used and fresh simulation agree on J v)')
+        return {'signature': sig,
                 'history': HISTORY, 'gridding': mode, 'spec': spec, 'seed': int(seed),
                 'observed': {'Re<w,Jv>': lhs, '<JTw,v>': rhs, 'relative': err,
                              'max |Jv(re-used) - Jv(fresh)| / max|Jv|': dev},
@@ -594,8 +697,8 @@ def correspondence(ctx):
     for i in range(nt):
         two_src = (i + off) % 2 == 0
         sp = H.add_observed(H.gen_spec(rng, idx=off + 5 * i + 1, n_src=2 if two_src else 1,
-                                       n_freq=1 if two_src else 2, n_rec=2,
-                                       max_pairs=2), rng)
+                                       n_freq=1 if two_src else 2, n_rec=2, max_pairs=2,
+                                       mapping=NONCOND[(off + i) % 5], aniso=(off + i) % 4), rng)
         if len(sp['freqs']) * len(sp['sources']) < 2:      # two equal frequencies were drawn
             sp['freqs'] = [1.0, 2.0]
             sp['obs'] = None
@@ -654,7 +757,9 @@ def correspondence(ctx):
     for i, mode in enumerate(modes):
         two_src = i % 2 == 0
         sp = H.add_observed(H.gen_spec(rng, idx=off + 7 * i + 2, n_src=2 if two_src else 1,
-                                       n_freq=1 if two_src else 2, n_rec=2, max_pairs=2), rng)
+                                       n_freq=1 if two_src else 2, n_rec=2, max_pairs=2,
+                                       mapping=NONCOND[(off + i + 2) % 5], aniso=(off + i + 1) % 4),
+                            rng)
         if len(sp['freqs']) * len(sp['sources']) < 2:
             sp['freqs'] = [1.0, 2.0]
             sp['obs'] = None
@@ -704,6 +809,7 @@ def correspondence(ctx):
 
 
 # ------------------------------------------------------------------ searcher
+NONCOND = ['Resistivity', 'LgConductivity', 'LnResistivity', 'LgResistivity', 'LnConductivity']
 GRIDDINGS = ['same', 'single', 'frequency', 'source', 'both', 'input', 'dict']
 
 
@@ -804,7 +910,8 @@ def search(ctx, broken):
             hits.append(hit)
             return hits
     for i in range(n):
-        spec = H.add_observed(H.gen_spec(rng, idx=off + 7 * i, n_src=2, n_freq=2 if i == 0 else None), rng)
+        spec = H.add_observed(H.gen_spec(rng, idx=off + 7 * i, n_src=2, n_freq=2 if i == 0 else None,
+                                         mapping=NONCOND[(off + i) % 5] if i == 0 else None), rng)
         for gi, gridding in enumerate(GRIDDINGS if (i == 0 or ctx.thorough)
                                       else ['same', GRIDDINGS[1 + i % 6]]):
             hit, err = dot_case(spec, gridding, use_files=((i + gi) % 2 == 1), seed=rng.randrange(2**31))
